@@ -20,25 +20,29 @@ class Case:
     """one lmplz run: corpus bytes + options"""
 
     def __init__(self, data, order, prune=None, limit=None, interp=True, fallback=None, skip=False, renumber=False,
-                 intermediate=False, tag=""):
+                 intermediate=False, tag="", mem=None, stale=None):
         self.data, self.order, self.prune, self.limit = data, order, prune, limit
         self.interp, self.fallback, self.skip, self.renumber, self.intermediate, self.tag = interp, fallback, skip, renumber, intermediate, tag
+        # mem: memory / block configuration arguments (None = -S 20M --vocab_estimate 1000: everything in one block, no merging)
+        # stale: None, or the number of junk bytes every output file holds BEFORE the run (output into pre-existing files)
+        self.mem, self.stale = mem, stale
 
     def to_json(self):
         return {"corpus_hex": self.data.hex(), "order": self.order, "prune": self.prune,
                 "limit": None if self.limit is None else [w.hex() for w in self.limit], "interp": self.interp,
                 "fallback": self.fallback, "skip": self.skip, "renumber": self.renumber, "intermediate": self.intermediate,
-                "tag": self.tag, "corpus_preview": self.data[:300].decode("utf-8", "replace")}
+                "mem": self.mem, "stale": self.stale, "tag": self.tag, "corpus_preview": self.data[:300].decode("utf-8", "replace")}
 
     @staticmethod
     def from_json(o):
         return Case(bytes.fromhex(o["corpus_hex"]), o["order"], o.get("prune"),
                     None if o.get("limit") is None else [bytes.fromhex(w) for w in o["limit"]], o.get("interp", True),
-                    o.get("fallback"), o.get("skip", False), o.get("renumber", False), o.get("intermediate", False), o.get("tag", ""))
+                    o.get("fallback"), o.get("skip", False), o.get("renumber", False), o.get("intermediate", False), o.get("tag", ""),
+                    o.get("mem"), o.get("stale"))
 
     def argv(self, text, arpa, scratch, limit_file=None, inter_base=None):
-        a = ["-o", str(self.order), "-S", "20M", "--vocab_estimate", "1000", "-T", scratch.rstrip("/") + "/",
-             "--text", text, "--arpa", arpa]
+        a = ["-o", str(self.order)] + (list(self.mem) if self.mem else ["-S", "20M", "--vocab_estimate", "1000"]) + \
+            ["-T", scratch.rstrip("/") + "/", "--text", text, "--arpa", arpa]
         if self.prune is not None:
             a += ["--prune"] + [str(x) for x in self.prune]
         if self.limit is not None:
@@ -87,6 +91,60 @@ def number(sents, skip):
 
 
 # ---------------------------------------------------------------------------------------------
+# --renumber / --intermediate: ids are reassigned in the order of the 64-bit MurmurHash64A of the word (<unk> stays 0)
+_M64 = (1 << 64) - 1
+
+
+def murmur64a(data, seed=0):
+    m, r = 0xc6a4a7935bd1e995, 47
+    h = (seed ^ (len(data) * m)) & _M64
+    n = len(data) // 8
+    for i in range(n):
+        k = int.from_bytes(data[8 * i:8 * i + 8], "little")
+        k = (k * m) & _M64
+        k ^= k >> r
+        k = (k * m) & _M64
+        h ^= k
+        h = (h * m) & _M64
+    tail = data[8 * n:]
+    if tail:
+        h ^= int.from_bytes(tail, "little")
+        h = (h * m) & _M64
+    h ^= h >> r
+    h = (h * m) & _M64
+    h ^= h >> r
+    return h
+
+
+def renumbering(words):
+    """old id -> new id as SortedVocabulary::ComputeRenumbering assigns them"""
+    order = sorted(range(1, len(words)), key=lambda i: murmur64a(words[i]))
+    ren = [0] * len(words)
+    for new, old in enumerate(order, 1):
+        ren[old] = new
+    return ren
+
+
+_POS_POOL = None
+
+
+def position_pool():
+    """word tokens classified by where renumbering puts them relative to the specials: before <s>, between <s> and </s>,
+    after </s> (with first-occurrence ids every word comes after both; with hash order about 1 word in 500 precedes <s>)"""
+    global _POS_POOL
+    if _POS_POOL is None:
+        hb, he = murmur64a(b"<s>"), murmur64a(b"</s>")
+        lo, hi = min(hb, he), max(hb, he)
+        pool = {"before": [], "between": [], "after": []}
+        for i in range(30000):
+            w = b"v%d" % i
+            h = murmur64a(w)
+            pool["before" if h < lo else "between" if h < hi else "after"].append(w)
+        _POS_POOL = pool
+    return _POS_POOL
+
+
+# ---------------------------------------------------------------------------------------------
 # generators
 def zipf_pick(rng, n, skew):
     # P(i) ~ 1/(i+1)^skew via inverse transform on a small table
@@ -108,7 +166,14 @@ WEIRD_TOKENS = [b"a\x0bb", b"d\x0cd", b"\xc2\x85", b"\xc2\xa0x", b"\xc3\xa9t\xc3
 
 def make_vocab(rng, types):
     v = []
+    placed = rng.chance(1, 3)        # some word types chosen by their position after renumbering
+    pool = position_pool() if placed else None
     for i in range(types):
+        if placed and rng.chance(1, 3):
+            t = rng.choice(pool[rng.choice(["before", "before", "between", "after"])] or pool["after"])
+            if t not in v:
+                v.append(t)
+                continue
         if rng.chance(1, 12):
             t = rng.choice(WEIRD_TOKENS) + (b"%d" % i if rng.chance(1, 2) else b"")
         else:
@@ -177,7 +242,45 @@ def gen_corpus(rng, big=False):
     return sents, vocab, skip
 
 
+def gen_mem(rng, order, ntypes):
+    """memory / block lattice: from "everything in one block" down to blocks of a dozen records, so that small corpora
+    already make corpus_count spill several blocks, the sorter merge runs, and every later chain cross block borders"""
+    r = rng.below(10)
+    if r < 4:
+        return None
+    ve = str(rng.choice([ntypes + 3, max(4, ntypes // 2), 12, 40]))
+    if r < 6:
+        return ["-S", rng.choice(["64K", "250K"]), "--sort_block", rng.choice(["512b", "1024b"]), "--minimum_block", "64b",
+                "--block_count", str(rng.range(1, 3)), "--vocab_estimate", ve]
+    if r < 8:
+        return ["-S", rng.choice(["4K", "8K"]), "--sort_block", rng.choice(["64b", "128b"]), "--minimum_block", "20b",
+                "--block_count", str(rng.range(1, 2)), "--vocab_estimate", ve]
+    return ["-S", rng.choice(["600b", "1K", "2K"]), "--sort_block", rng.choice(["40b", "64b"]), "--minimum_block", "20b",
+            "--block_count", str(rng.range(1, 2)), "--vocab_estimate", str(rng.choice([4, 8, 12]))]
+
+
+def gen_degenerate(rng):
+    """corpora without a single word: only empty lines, blank lines, or lines of special tokens (under --skip_symbols);
+    </s> is then the last unigram.  Thresholds around the number of lines."""
+    n = rng.range(1, 5)
+    kind = rng.choice(["empty", "blank", "symbols"])
+    if kind == "empty":
+        data, skip = b"\n" * n, rng.chance(1, 3)
+    elif kind == "blank":
+        data, skip = b"".join(rng.choice([b" \n", b"\t\n", b"\r \n", b"\n"]) for _ in range(n)), False
+    else:
+        data, skip = b"".join(b" ".join(rng.choice(SPECIALS) for _ in range(rng.range(0, 3))) + b"\n" for _ in range(n)), True
+    order = rng.range(1, 4)
+    t = rng.choice([n - 1, n, n, n + 1, 0])
+    prune = None if rng.chance(1, 4) else [max(t, 0)] * rng.range(1, order)
+    return Case(data, order, prune, None, interp=not rng.chance(1, 4), fallback=[], skip=skip, renumber=rng.chance(1, 4),
+                intermediate=rng.chance(1, 6), tag="gen:degenerate", mem=gen_mem(rng, order, 0),
+                stale=rng.choice([None, None, 5000]))
+
+
 def gen_case(rng, big=False):
+    if rng.chance(1, 25):
+        return gen_degenerate(rng)
     sents, vocab, skip = gen_corpus(rng, big)
     data = render(rng, sents, plain=rng.chance(1, 3))
     order = rng.choice([1, 2, 2, 3, 3, 3, 4, 5, 6])
@@ -200,8 +303,9 @@ def gen_case(rng, big=False):
     fallback = None
     if rng.chance(4, 5):
         fallback = rng.choice([[], [], [], [0.5, 1, 1.5], [0.25], [0.5, 1], [0.75, 1.5, 2.5], [1, 2, 3], [0], [0.5, 0.5, 0.5]])
-    return Case(data, order, prune, limit, interp=not rng.chance(1, 5), fallback=fallback, skip=skip,
-                renumber=rng.chance(1, 8), intermediate=rng.chance(1, 8), tag="gen")
+    return Case(data, order, prune, limit, interp=not rng.chance(1, 4), fallback=fallback, skip=skip,
+                renumber=rng.chance(1, 5), intermediate=rng.chance(1, 8), tag="gen", mem=gen_mem(rng, order, len(vocab)),
+                stale=rng.choice([None, None, None, 1, 300, 100000]))
 
 
 # ---------------------------------------------------------------------------------------------
@@ -222,6 +326,12 @@ def run_lmplz(lmplz, case, scratch, idx=0, keep=False):
         limit_file = base + ".limit"
         open(limit_file, "wb").write(b"\n".join(case.limit) + b"\n")
     inter = base + ".inter" if case.intermediate else None
+    if case.stale:
+        # the output files exist already and are longer / shorter than what this run writes (a rebuilt model)
+        junk = (b"-9.9\tstale stale\t-9.9\n" * (case.stale // 20 + 1))[:case.stale]
+        targets = [arpa] + ([inter + ".kenlm_intermediate", inter + ".vocab"] + [inter + ".%d" % k for k in range(1, case.order + 1)] if inter else [])
+        for t in targets:
+            open(t, "wb").write(junk)
     cmd = ["timeout", "60", lmplz] + case.argv(text, arpa, scratch, limit_file, inter)
     rc, out, err = vlib.sh(cmd, timeout=90)
     if rc in (126, 127) and "failed to run command" in err:
@@ -239,7 +349,9 @@ def run_lmplz(lmplz, case, scratch, idx=0, keep=False):
         for pat, kind in (("Could not calculate Kneser-Ney discounts", "discount"), ("discount out of range", "discount"),
                           ("Pruning thresholds should be in non-decreasing order", "prune-order"),
                           ("You specified pruning thresholds for orders", "prune-len"),
-                          ("is not allowed in the corpus", "special-token")):
+                          ("is not allowed in the corpus", "special-token"),
+                          ("exceeds total memory", "memory"), ("Not enough memory to fit", "memory"),
+                          ("is below the minimum block size", "memory")):
             if pat in err:
                 r.refused = kind
         m = re.search(r"for (\d+)-grams with adjusted count|ERROR: (\d+)-gram discount out of range", err)
@@ -307,10 +419,12 @@ def parse_arpa(path):
         i += 1
     if lines[i] != b"\\end\\":
         raise ValueError("no \\end\\")
+    if lines[i + 1:] != [b""]:
+        raise ValueError("%d bytes follow \\end\\" % len(b"\n".join(lines[i + 1:])))
     return header, orders
 
 
-def parse_intermediate(base, order):
+def parse_intermediate(base, order, expected_vocab=None):
     """-> (counts, orders as in parse_arpa but with float32 values) from base.kenlm_intermediate / .vocab / .1...N"""
     meta = open(base + ".kenlm_intermediate", "rb").read().split(b"\n")
     if meta[0] != b"KenLM intermediate binary file":
@@ -318,7 +432,16 @@ def parse_intermediate(base, order):
     counts = [int(x) for x in meta[1].split()[1:]]
     if meta[2] != b"Payload pb":
         raise ValueError("payload %r" % meta[2])
-    vocab = open(base + ".vocab", "rb").read().split(b"\0")[:-1]
+    if len(meta) != 4 or meta[3] != b"":
+        raise ValueError("metadata file has %d extra bytes" % len(b"\n".join(meta[3:])))
+    vraw = open(base + ".vocab", "rb").read()
+    if not vraw.endswith(b"\0"):
+        raise ValueError("vocabulary file does not end with NUL")
+    vocab = vraw.split(b"\0")[:-1]
+    if counts and len(vocab) < counts[0]:
+        raise ValueError("vocabulary file holds %d words, %d unigrams" % (len(vocab), counts[0]))
+    if expected_vocab is not None and sorted(vocab) != sorted(expected_vocab):
+        raise ValueError("vocabulary file holds %d words, the corpus has %d types (with the specials)" % (len(vocab), len(expected_vocab)))
     orders = []
     for k in range(1, order + 1):
         raw = open(base + ".%d" % k, "rb").read()
@@ -502,7 +625,7 @@ def close(impl_log, exact, rel=2e-5, floor=3e-7):
     return abs(v - e) <= rel * abs(e) + floor
 
 
-def compare_with_exact(run_orders, words, exact_orders, check_order=True, what="model"):
+def compare_with_exact(run_orders, words, exact_orders, check_order=True, what="model", ren=None):
     """run_orders: parse_arpa orders (word tuples); exact_orders: list per order of [(ids, prob, bo)] in expected file order.
     Returns None or a description of the first difference."""
     index = {w: i for i, w in enumerate(words)}
@@ -513,6 +636,9 @@ def compare_with_exact(run_orders, words, exact_orders, check_order=True, what="
             rids = [tuple(index[w] for w in g) for g, _, _ in ro]
         except KeyError as e:
             return "order %d: the file contains a word that is not in the corpus: %r" % (k, e.args[0])
+        if ren is not None:
+            # renumbered vocabulary: the file is in suffix order of the NEW ids
+            eo = sorted(eo, key=lambda t: tuple(ren[w] for w in reversed(t[0])))
         eids = [g for g, _, _ in eo]
         if check_order:
             if rids != eids:
